@@ -27,8 +27,8 @@ ASSUMPTIONS = ["PARTIAL: expected relative error O(1/m) and the 15% window on th
 
 
 def correspond(run):
-    setflib.correspond_registers(run, 300 if run.tier == "quick" else 3000)
-    rc, js, out, err = vlib.harness(["card-props", "--seed", run.seed, "--n", 40 if run.tier == "quick" else 600], timeout=2400)
+    setflib.correspond_registers(run, 300 if run.depth == "quick" else 3000)
+    rc, js, out, err = vlib.harness(["card-props", "--seed", run.seed, "--n", 40 if run.depth == "quick" else 600], timeout=2400)
     if rc != 0 or js is None:
         run.oblige("direct:card-props", "correspondence", False, (out[-300:] + err[-300:]))
         return
